@@ -63,6 +63,12 @@ class ValNum:
                     cur = self.env.get(base, sp.Symbol(self.param_map.get(base, base)))
                     self.env[base] = sp.Function('maskset')(cur, idx, self.term(s.value))
                     continue
+                if isinstance(t, ast.Tuple) and isinstance(s.value, ast.Tuple) and len(t.elts) == len(s.value.elts):
+                    vals = [self.term(v) for v in s.value.elts]
+                    for e, v in zip(t.elts, vals):
+                        if isinstance(e, ast.Name):
+                            self.env[e.id] = v
+                    continue
                 if isinstance(t, ast.Tuple) and isinstance(s.value, ast.Call):
                     v = self.term(s.value)
                     for i, e in enumerate(t.elts):
